@@ -125,6 +125,30 @@ theorem reset_hard_idempotent_root (w s tgt : Root) (hw : Sorted ltStr (keys w))
         cases hh : has tgt n <;> simp_all
       simp [this]
 
+/-- **reset_hard_idempotent.**  `dolt_reset('--hard')` twice is `dolt_reset('--hard')` once: the
+second call leaves HEAD, the staged root and every table of the working root as the first left them. -/
+theorem reset_hard_idempotent (d d' d'' : Db) (hw : Sorted ltStr (keys d.ws.working))
+    (hh : Sorted ltStr (keys d.headRoot))
+    (h1 : d.resetHard none = (.ok, d')) (h2 : d'.resetHard none = (.ok, d'')) :
+    d''.headId = d'.headId ∧ d''.ws.staged = d'.ws.staged ∧ d''.ws.merge = d'.ws.merge ∧
+      ∀ n, get d''.ws.working n = get d'.ws.working n := by
+  unfold Db.resetHard at h1
+  simp only [Prod.mk.injEq, true_and] at h1
+  subst h1
+  unfold Db.resetHard at h2
+  simp only [Prod.mk.injEq, true_and, headId_setWs, headId_setHead, ws_setWs, rootOf_setWs, rootOf_setHead] at h2
+  subst h2
+  refine ⟨by simp, by simp, by simp, ?_⟩
+  intro n
+  simp only [ws_setWs]
+  exact reset_hard_idempotent_root _ _ _ hw hh n
+
+/-- the hypotheses of `reset_hard_idempotent` are met by a database with an untracked table -/
+example :
+    let d : Db := { initDb with wss := [("main", ⟨[("u", ⟨[], []⟩)], [], none⟩)] }
+    (d.resetHard none).1 = .ok ∧ ((d.resetHard none).2.resetHard none).1 = .ok ∧
+      get ((d.resetHard none).2.resetHard none).2.ws.working "u" = some ⟨[], []⟩ := by decide
+
 /-- the property's wording "a hard reset makes working and staged equal to the target commit" -/
 def reset_hard_full : Prop :=
   ∀ (d d' : Db), d.resetHard none = (.ok, d') → d'.ws.working = d'.headRoot
